@@ -198,6 +198,30 @@ func (r *runner) arguments() {
 			}
 		}
 	}
+	// two statements with the same argument text but different argument syntaxes in one module:
+	// the text is valid for the first kind and invalid for the second (or the other way round), so
+	// the module must be rejected whatever came before (argument objects may be shared by text)
+	for i, k1 := range kinds {
+		for j, k2 := range kinds {
+			if i == j || strings.HasPrefix(k1.templates[0], "yang-version") || strings.HasPrefix(k2.templates[0], "yang-version") {
+				continue
+			}
+			for _, str := range k1.strings {
+				v1, s1 := k1.valid(str)
+				v2, s2 := k2.valid(str)
+				if !s1 || !s2 || !v1 || v2 || rfc6020.EdgeSpace(str) {
+					continue
+				}
+				st1 := strings.Replace(k1.templates[0], "%s", quote(str), 1)
+				st2 := strings.Replace(k2.templates[0], "%s", quote(str), 1)
+				for oi, body := range []string{st1 + " " + st2, st2 + " " + st1} {
+					pre := strings.Fields(k2.templates[0][:strings.Index(k2.templates[0], "%s")])
+					needle := pre[len(pre)-1]
+					r.do(fmt.Sprintf("argpair:%s:%s:%d:%q", k1.name, k2.name, oi, str), rec{mhead + body + " }", "reject", needle + "|" + str, "arg:" + k2.name + ":" + fmt.Sprintf("%q", str) + ":next-to-valid-" + k1.name}, true)
+				}
+			}
+		}
+	}
 	// patterns: clearly well-formed and clearly ill-formed regular expressions
 	for _, p := range []struct {
 		s  string
